@@ -15,12 +15,16 @@ Applicable(nch, cal, anchor) ==
     \cup {[c |-> "indexCont", at |-> k] : k \in 2..nch} \cup {[c |-> "indexShape", at |-> k] : k \in 1..nch}
     \cup {[c |-> "chainLevel", at |-> k] : k \in 1..nch}
     \cup {[c |-> "inputAlg", at |-> 1]} \cup {[c |-> "aggrAlg", at |-> k] : k \in 1..nch}
-    \cup (IF cal THEN {[c |-> "calInput", at |-> 0], [c |-> "calAggrTime", at |-> 0], [c |-> "calShape", at |-> 0], [c |-> "calShapeNone", at |-> 0]} ELSE {})
+    \cup (IF cal THEN {[c |-> "calInput", at |-> 0], [c |-> "calAggrTime", at |-> 0], [c |-> "calShape", at |-> 0], [c |-> "calShapeNone", at |-> 0],
+                     [c |-> "calAggrTimeAbsent", at |-> 0], [c |-> "calAggrOmittedOk", at |-> 0]} ELSE {})
     \cup (IF anchor = "pub" THEN {[c |-> "pubHash", at |-> 0], [c |-> "pubTime", at |-> 0]} ELSE {})
     \cup (IF anchor = "auth" THEN {[c |-> "authHash", at |-> 0], [c |-> "authTime", at |-> 0]} ELSE {})
 Structures == {[nch |-> n, cal |-> c, anchor |-> a] : n \in 1..3, c \in BOOLEAN, a \in {"none", "pub", "auth"}} \ {x \in [nch : 1..3, cal : {FALSE}, anchor : {"pub", "auth"}] : TRUE}
+(* constructions that exclude one another: the calendar chain either has an aggregation-time element or it has not *)
+CalTimeKinds == {"calAggrTime", "calShape", "calShapeNone", "calAggrTimeAbsent", "calAggrOmittedOk"}
+Contradictory == {{[c |-> x, at |-> 0], [c |-> y, at |-> 0]} : x \in {"calAggrTimeAbsent", "calAggrOmittedOk"}, y \in CalTimeKinds}
 VSets(st) == LET A == Applicable(st.nch, st.cal, st.anchor) IN
-             {{}} \cup {{v} : v \in A} \cup (IF Pairs /\ st.nch = 2 THEN {{v, w} : v \in A, w \in A} ELSE {})
+             {{}} \cup {{v} : v \in A} \cup (IF Pairs /\ st.nch = 2 THEN {{v, w} : v \in A, w \in A} \ Contradictory ELSE {})
 Docs == {"absent", "equal", "digest", "alg"}
 Levels == {"none", "ok", "over", "huge"}
 
